@@ -517,10 +517,36 @@ def run_prog(case, res, prop):
         if rr["mem"]:
             rc.access(rr["mem"][1], rr["mem"][0] == "w", counted=True)
     results = {}
+    ic = case.get("icache")
+    # hazard detection off: the cache must be just as transparent for the interlock-free pipeline
+    if case.get("hz_off"):
+        fin = {}
+        for dc in (None, cfg):
+            c5 = {"kind": "pipe", "prog": case["prog"], "regs": case["regs"], "mem": case["mem"], "hz": False, "dcache": dc, "icache": ic, "max_instr": case["max_instr"]}
+            ref = TimedRef(prog, case["regs"], case["mem"], interlock=False)
+            ref.run(case["max_instr"])
+            if ref.fault or ref.timeout:
+                fin = None
+                break
+            out = pipe.run_five(c5, res, prop, ref)
+            if out is None or out["rfault"] is not None:
+                if dc is not None and fin.get(False) is not None:
+                    res.violation("C03", "prog-result", "hazard detection off: the pipeline monitors are silent without data cache but fire / fault with it", case)
+                    return
+                fin = None
+                break
+            sim = out["sim"]
+            fin[dc is not None] = (real_regs(sim), sim.state.output, sim.state.exit_code, pipe.mem_image(sim), bool(sim.is_done()))
+        if fin:
+            res.count("prog_runs_hz_off")
+            if fin[True] != fin[False]:
+                names = ["registers", "output", "exit code", "memory", "done"]
+                res.violation("C03", "prog-result", "hazard detection off: data cache on/off differ in %s" % [names[i] for i in range(5) if fin[True][i] != fin[False][i]], case)
+                return
     for mode in ("single", "five"):
         for dc in (None, cfg):
             if mode == "five":
-                c5 = {"kind": "pipe", "prog": case["prog"], "regs": case["regs"], "mem": case["mem"], "hz": True, "dcache": dc, "max_instr": case["max_instr"]}
+                c5 = {"kind": "pipe", "prog": case["prog"], "regs": case["regs"], "mem": case["mem"], "hz": True, "dcache": dc, "icache": ic, "max_instr": case["max_instr"]}
                 ref = TimedRef(prog, case["regs"], case["mem"], interlock=True)
                 ref.run(case["max_instr"])
                 out = pipe.run_five(c5, res, prop, ref)
@@ -530,7 +556,7 @@ def run_prog(case, res, prop):
                     return
                 sim = out["sim"]
             else:
-                sim = make_riscv("single", dcache=dc)
+                sim = make_riscv("single", dcache=dc, icache=ic)
                 install_program(sim, case["prog"])
                 set_regs(sim, case["regs"])
                 preload_mem(sim, case["mem"])
@@ -567,7 +593,7 @@ def run_prog(case, res, prop):
         res.violation("C09", "prog-stats", "data-cache (hits, accesses): single-cycle %r, five-stage %r, reference cache on the golden trace %r; golden loads+stores = %d" % (s1, s5, golden, seq.loads + seq.stores), case)
         return
     pen = cfg["pen"]
-    if results[("single", True)]["cycles"] != seq.n + pen * (golden[1] - golden[0]):
+    if ic is None and results[("single", True)]["cycles"] != seq.n + pen * (golden[1] - golden[0]):
         res.violation("C09", "prog-penalty", "single-cycle cycles %d != instructions %d + %d x %d misses" % (results[("single", True)]["cycles"], seq.n, pen, golden[1] - golden[0]), case)
         return
     h = h64(case)
@@ -628,7 +654,12 @@ def run_shard(spec, res):
             case = gen_history(rng, spec["ops"], acct)
         else:
             prog, regs = word_ok_program(rng)
-            case = {"kind": "prog", "prog": prog, "regs": regs, "mem": G.init_mem(rng), "dcache": rand_cfg(rng, small=True), "max_instr": 250}
+            case = {"kind": "prog", "prog": prog, "regs": regs, "mem": G.init_mem(rng), "dcache": rand_cfg(rng, small=rng.random() < 0.7), "max_instr": 250}
+            if rng.random() < 0.3:
+                ic = rand_cfg(rng, small=True)
+                case["icache"] = {k: ic[k] for k in ("ib", "bb", "assoc", "policy", "pen")}
+            if rng.random() < 0.35:
+                case["hz_off"] = True
         guarded(run_case, prop, case, res)
         res.evaluations += 1
         if it < 1:
